@@ -97,6 +97,28 @@ def all_single_edits(b, alphabet):
     return sorted(out)
 
 
+def aliasing_code_points():
+    """Code points that look like a structural ASCII character after a narrowing conversion: low 8 / 16 bits equal to the
+    character, or last UTF-8 byte equal to the character + 0x80 (what (char), toascii(), & 0x7f, (unsigned short) would see)."""
+    out = set()
+    for c in b'."\\@ ()<>[],;:':
+        for k in (1, 2, 3, 6, 0x10, 0x20, 0x4e, 0xd7, 0xe0, 0xff):
+            out.add(c | (k << 8))
+        for k in range(1, 17):
+            out.add(c | (k << 16))
+            out.add(c | 0x2000 | (k << 16))
+        lo = c | 0x80                       # continuation byte that aliases the character
+        if 0x80 <= lo <= 0xbf:
+            for lead in (0xc2, 0xc3, 0xd0, 0xdf):
+                out.add(((lead & 0x1f) << 6) | (lo & 0x3f))
+            out.add((0x4 << 12) | (0x2e << 6) | (lo & 0x3f))
+            out.add((0x1 << 18) | (0x10 << 12) | (0x00 << 6) | (lo & 0x3f))
+    for cp in range(0x300, 0x370, 7):       # combining marks (adjacent to dots and quotes in the templates)
+        out.add(cp)
+    out.update([0x20d0, 0x1ab0, 0x1dc0, 0xfe20])
+    return sorted(cp for cp in out if cp >= 0x80 and cp <= 0x10ffff and not 0xd800 <= cp <= 0xdfff)
+
+
 def enum_strings(tokens, k, minlen=0):
     """Canonical order used by the driver's N op: length-major, then lexicographic by token index."""
     for n in range(minlen, k + 1):
